@@ -33,6 +33,10 @@ add("C15", "bounded-exhaustive grid enumeration + rapid-generated larger cells, 
     "Every cell of (source length 0..6, destination length 0..6, capacity none/len+0..7, LIFO/FIFO, nil elements, 12 destination forms, no-nesting/policy filters) is executed; source snapshot must be identical, a true result requires old++source, impossible transfers require false with an identical destination snapshot. Complete for the grid, exploration beyond it.",
     "Trusted: VerifDump hook (reads only), snapshot rendering. A refusal when everything fits is accepted (statement constrains only a true result).")
 
+add("C02", "generated expression trees vs an independent canonical renderer over the tree description (pattern match), plus coverage-guided native fuzzing of the same oracle",
+    "rapid-generated trees with every per-node option combination and Unicode/blank/empty leaves are rendered by the real String() and by a ~150-line reference renderer written from the statement; results must match (optional blank only at documented open positions), be idempotent and equal fmt %s. Thorough adds 16 shards, deeper trees and 90 s of native fuzzing through rapid.MakeFuzz. Exploration only.",
+    "Trusted: the reference renderer (render.go) and its lenient positions; fmt for number formatting. Excluded inputs are listed in the evidence assumptions.")
+
 NOT_YET = {}
 
 ALL = ["C%02d" % i for i in range(1, 21)]
